@@ -9,6 +9,7 @@
 // 'eof' ends it at the cut, 'bad' makes the underlying streambuf throw at the cut (stream goes bad mid-read).
 #include "../core/worker.h"
 #include "../core/common.h"
+#include "../core/layout.h"
 #include "riddle_parser.h"
 #include "solver.h"
 #include <fstream>
@@ -73,8 +74,8 @@ static std::string slurp(const std::string &path)
   return ss.str();
 }
 
-// returns a short outcome tag; throws nothing
-static std::string run_one(const std::string &data, size_t limit, bool bad, char layer)
+// returns a short outcome tag; throws nothing. detail = what the caller was told (the exception text)
+static std::string run_one(const std::string &data, size_t limit, bool bad, char layer, std::string *detail = nullptr)
 {
   try
   {
@@ -99,6 +100,8 @@ static std::string run_one(const std::string &data, size_t limit, bool bad, char
   }
   catch (const std::exception &e)
   {
+    if (detail)
+      *detail = e.what();
     return std::string("rejected:") + typeid(e).name();
   }
   catch (...)
@@ -155,6 +158,8 @@ static void run_cmd(const sim::Cmd &c, sim::Out &out)
   sim::Counters cnt;
   long n = 0, nontrivial = 0;
   std::string status = "OK";
+  const bool poison_ok = op.num("poison", 1) != 0;
+  static bool configured = false;
   auto report = [&](const std::string &cls, long off, const std::string &msg)
   { return "V oracle=IO class=" + cls + " op=" + std::to_string(off) + " msg=" + msg + "\n"; };
   auto tail = [&](const std::string &st)
@@ -165,6 +170,41 @@ static void run_cmd(const sim::Cmd &c, sim::Out &out)
     out.flush();
     arm(report(std::string("IO.") + layer + ".hang", tag, "no answer within " + std::to_string(T_SECONDS) + " s of CPU time on this input") + tail("VIOL"));
     std::string r = run_one(data, limit, bad, layer);
+    // the bytes of the input are all the parser may depend on: the same input is parsed again with every heap block it gets
+    // pre-filled with '"', with a line break and with 0xff (the allocator is ours); a different outcome or message means that
+    // memory which is not part of the input - uninitialised, or beyond the end of the text - was read
+    if (layer == 'a' && r != "ALIEN_EXCEPTION" && poison_ok)
+    {
+      static const int fills[] = {'"', '\n', 0xff};
+      std::string first_r, first_d;
+      for (size_t k = 0; k < 3; ++k)
+      {
+        std::string d, rr;
+        sim::layout::set_poison(fills[k]);
+        if (!configured)
+          sim::layout::configure(512ULL << 20, 1ULL << 16), configured = true;
+        sim::layout::start(1, false);
+        {
+          std::string dd;
+          rr = run_one(data, limit, bad, layer, &dd);
+          sim::layout::stop();
+          d = dd.c_str();
+        }
+        sim::layout::set_poison(-1);
+        if (k == 0)
+          first_r = rr, first_d = d;
+        else if (rr != first_r || d != first_d)
+        {
+          disarm();
+          ++n;
+          cnt.inc("poison_differential_runs", static_cast<long>(k + 1));
+          out.line(report(std::string("IO.") + layer + ".reads_memory_outside_input", tag, "the outcome depends on what memory that is not part of the input holds: with fresh heap blocks filled with 0x22 -> " + first_r + " '" + first_d.substr(0, 80) + "', filled with " + (k == 1 ? "0x0a" : "0xff") + " -> " + rr + " '" + d.substr(0, 80) + "'"));
+          status = "VIOL";
+          return false;
+        }
+      }
+      cnt.inc("poison_differential_runs", 3);
+    }
     disarm();
     ++n;
     cnt.inc("outcome." + r.substr(0, r.find(':')));
